@@ -1,5 +1,6 @@
 import Secp.Proofs.Der
 import Secp.Proofs.BytesProg
+import Secp.Proofs.BytesBuild
 /-
   Props/C09 — DER signature codec is strict, canonical and round-trips.
   ONLY property theorems and non-vacuity examples live here; helper lemmas are
@@ -79,5 +80,18 @@ theorem regenerated_err_sound (b : Bytes) (e : SigErr) (h : Secp.Gen.BytesProg.p
 -- non-vacuity: a concrete accepted string, a concrete rejected one
 example : parseDER [0x30, 0x06, 0x02, 0x01, 0x01, 0x02, 0x01, 0x01] = .ok (1, 1) := by decide
 example : parseDER [0x30, 0x07, 0x02, 0x02, 0x00, 0x01, 0x02, 0x01, 0x01] = .err .ErrSigTooMuchRPadding := by decide
+
+
+/-- `Signature.Serialize` as REGENERATED statement by statement (tools/gotr pass T7, builders): low-s normalisation, the two
+    33-byte buffers filled by PutBytesUnchecked, the canonicalisation loops, the length bytes and the appends — is the
+    hand-written model `serializeDER` for every r and every canonical s.  With `serializeDER_eq` it follows that the code as it
+    stands emits the canonical DER of (r, low-s). -/
+theorem serializeDER_regenerated (r s : Nat) (hs : s < N) :
+    Secp.Gen.BytesBuild.serializeDER r s = serializeDER r s :=
+  Secp.Proofs.BytesBuild.serializeDER_gen_eq_model r s hs
+
+theorem regenerated_serialize_canonical (r s : Nat) (hr : r < N) (hs : s < N) :
+    Secp.Gen.BytesBuild.serializeDER r s = canonicalDER r (lowS s) := by
+  rw [serializeDER_regenerated r s hs]; exact serializeDER_eq r s hr hs
 
 end Secp.Props.C09
